@@ -203,6 +203,37 @@ Proof.
   - rewrite IH, (emit_transparent_single F full recursive wp content e Hd). reflexivity.
 Qed.
 
+(* ------------------------------------------------------------------ items: singles and paired moves *)
+Theorem emit_item_stream F full recursive wp content (its : list item) :
+  flat_map (fun it => fst (emit_filtered F full recursive wp content it))
+           (flat_map (handed_over (effective_mask (mask_of_filter recursive F))) its)
+  = filter (acc F) (flat_map (fun it => fst (emit full recursive wp content it)) its).
+Proof.
+  induction its as [|it its IH]; [reflexivity|].
+  cbn [flat_map]. rewrite flat_map_app, filter_app, IH. f_equal.
+  destruct it as [e | f t]; cbn [handed_over].
+  - destruct (delivered (effective_mask (mask_of_filter recursive F)) (r_mask e)) eqn:Hd.
+    + cbn [flat_map]. rewrite app_nil_r, emit_filtered_commutes. reflexivity.
+    + rewrite (emit_transparent_single F full recursive wp content e Hd). reflexivity.
+  - pose proof (mask_move_whole recursive F) as W. unfold flag_set in W.
+    destruct (flag_in IN_MOVED_FROM (effective_mask (mask_of_filter recursive F))) eqn:H1;
+      rewrite <- W.
+    + cbn [flat_map]. rewrite app_nil_r, emit_filtered_commutes. reflexivity.
+    + cbn [flat_map]. symmetry. apply emit_transparent_pair. left. exact H1.
+Qed.
+
+(* on the pinned table the same statement fails: [FileDeletedEvent], a move out of the tree *)
+Lemma emit_item_stream_refuted_pinned :
+  exists F full recursive wp content its,
+    flat_map (fun it => fst (emit_filtered F full recursive wp content it))
+             (flat_map (handed_over (effective_mask (mask_of_filter_pinned recursive F))) its)
+    <> filter (acc F) (flat_map (fun it => fst (emit full recursive wp content it)) its).
+Proof.
+  exists (Some [Concrete FileDeleted]), false, false, probe_root, (fun _ => probe_tree),
+    [Single (probe_raw IN_MOVED_FROM probe_entry)].
+  vm_compute. discriminate.
+Qed.
+
 (* ------------------------------------------------------------------ stutter *)
 Definition stutter_eq (a b : list nevent) : Prop := collapse a = collapse b.
 
